@@ -57,6 +57,10 @@ impl TransportSenderT for MockTx {
 		sched::log(format!("tx:send#{n}:{msg}"));
 		self.0.sent.lock().unwrap().push(msg);
 		self.0.wire_notify.notify_waiters();
+		if self.0.tx_points {
+			// the bytes have left, the send future has not returned yet (e.g. waiting for a flush)
+			sched::point("tx:send:returning").await;
+		}
 		Ok(())
 	}
 	async fn close(&mut self) -> Result<(), MockErr> {
@@ -111,6 +115,10 @@ pub enum FeOp {
 	Notif,
 	/// a call that is only started once `after` environment events have fired
 	LateCall,
+	/// a batch that is only started once `after` environment events have fired
+	LateBatch(usize),
+	/// a call whose future the application may drop (cancel) at any moment before it completes
+	AbandonCall,
 }
 
 #[derive(Clone, Debug, PartialEq)]
@@ -254,7 +262,7 @@ pub fn setup(cfg: &CliScenarioCfg) -> CliState {
 		let env_notify = env_notify.clone();
 		let late_after = cfg.late_after;
 		tokio::spawn(async move {
-			if op == FeOp::LateCall {
+			if matches!(op, FeOp::LateCall | FeOp::LateBatch(_)) {
 				loop {
 					let nfy = env_notify.notified();
 					if log.lock().unwrap().env_fired >= late_after {
@@ -267,9 +275,17 @@ pub fn setup(cfg: &CliScenarioCfg) -> CliState {
 			log.lock().unwrap().status[i] = OpStatus::Pending;
 			sched::log(format!("fe:{i}:start:{op:?}"));
 			let res: Result<String, String> = match op {
+				FeOp::AbandonCall => {
+					let fut = client.request::<Value, _>("m", rpc_params![i as u64]);
+					tokio::select! {
+						biased;
+						r = fut => r.map(|v| v.to_string()).map_err(|e| err_str(&e)),
+						_ = sched::point(format!("fe:abandon:{i}")) => Ok("abandoned".to_string()),
+					}
+				}
 				FeOp::Call | FeOp::LateCall => client.request::<Value, _>("m", rpc_params![i as u64]).await.map(|v| v.to_string()).map_err(|e| err_str(&e)),
 				FeOp::Notif => client.notification("note", rpc_params![i as u64]).await.map(|_| "sent".to_string()).map_err(|e| err_str(&e)),
-				FeOp::Batch(k) => {
+				FeOp::Batch(k) | FeOp::LateBatch(k) => {
 					let mut b = BatchRequestBuilder::new();
 					let name = format!("bm{i}");
 					for j in 0..k {
@@ -395,10 +411,10 @@ pub fn wire_index_of(sent: &[String], op: &FeOp, i: usize) -> Option<usize> {
 	sent.iter().position(|m| {
 		let Ok(v) = serde_json::from_str::<Value>(m) else { return false };
 		match op {
-			FeOp::Batch(_) => v.as_array().map_or(false, |a| a.first().and_then(|e| e.get("method")).and_then(|x| x.as_str()) == Some(&format!("bm{i}"))),
+			FeOp::Batch(_) | FeOp::LateBatch(_) => v.as_array().map_or(false, |a| a.first().and_then(|e| e.get("method")).and_then(|x| x.as_str()) == Some(&format!("bm{i}"))),
 			FeOp::Subscribe | FeOp::SubscribeDrop => v.get("method").and_then(|x| x.as_str()) == Some("sub") && v.get("params") == Some(&json!([i])),
 			FeOp::Notif => v.get("method").and_then(|x| x.as_str()) == Some("note") && v.get("params") == Some(&json!([i])),
-			FeOp::Call | FeOp::LateCall => v.get("method").and_then(|x| x.as_str()) == Some("m") && v.get("params") == Some(&json!([i])),
+			FeOp::Call | FeOp::LateCall | FeOp::AbandonCall => v.get("method").and_then(|x| x.as_str()) == Some("m") && v.get("params") == Some(&json!([i])),
 		}
 	})
 }
